@@ -183,6 +183,22 @@ all outside tests (they use `rustc_hash`, which has no per-process seed), so the
 every `RandomState` of the compile-and-run pipeline. -/
 theorem c05_front_end_std_hash_free : Gen.frontEndStdHash = [] := by decide
 
+/-- **No unreviewed environment input** (clauses "independent of process, … memory layout and
+wall-clock time").  Every `thread_local!`, mutable/interior-mutable `static`, address-derived value
+(`as_ptr`, `as *const`, `{:p}`), `std::env` read, file-system access (`canonicalize`, `exists`, …),
+`Instant/SystemTime::now`, process or thread id, thread spawn, explicit randomness or machine
+query in the scanned part of trust-runtime and in trust-hir / trust-syntax (table regenerated on
+every run) is one of the hand-reviewed sites of `reviewedEnv`, none of which can reach container
+bytes or cycle results under the stated assumptions; a new site breaks this proof. -/
+theorem c05_env_inputs_reviewed :
+    (∀ u ∈ Gen.envUses, ∃ r ∈ reviewedEnv, r.matchesUse u = true) ∧
+    (∀ r ∈ reviewedEnv, (Gen.envUses.filter r.matchesUse).length ≤ r.max) := by
+  have h : envUsesOk Gen.envUses = true := by decide +kernel
+  simp only [envUsesOk, Bool.and_eq_true] at h
+  refine ⟨fun u hu => ?_, fun r hr => of_decide_eq_true (List.all_eq_true.mp h.2 r hr)⟩
+  have := List.all_eq_true.mp h.1 u hu
+  simpa [List.any_eq_true] using this
+
 /-- **Reviewed use 1** (`for (type_name, policy) in retain_by_type`, harness/config.rs): visiting
 the table in any order gives the same program definitions, because entries with distinct
 normalised type names update distinct programs. -/
